@@ -275,6 +275,20 @@ func TestC13ExitRace(t *testing.T) {
 		st.Report(t, "TestC13ExitRace", map[string]any{"exit_squeeze_idle_ms": idle.Milliseconds()}, v)
 		st.Case(true, uint64(0xe517)+uint64(idle), func() any { return map[string]any{"exit_squeeze_idle_ms": idle.Milliseconds()} }, "exit_squeeze")
 	}
+	for i := 0; i < vstat.Pick(12, 80); i++ {
+		idle := time.Duration(30+i%3*15) * time.Millisecond
+		workers, calls := 2+i%4, []int{3, 11, 12, 25}[i%4]
+		v := RunBargeSqueeze(idle, workers, calls)
+		if v != nil && v.Sig != "timers:call-blocked" && timeBound[v.Sig] {
+			if v2 := RunBargeSqueeze(idle, workers, calls); v2 == nil {
+				st.Inconclusivef("%s once in the barge squeeze, passed on re-run", v.Sig)
+				v = nil
+			}
+		}
+		c := map[string]any{"barge_squeeze_idle_ms": idle.Milliseconds(), "workers": workers, "calls": calls}
+		st.Report(t, "TestC13ExitRace", c, v)
+		st.Case(true, uint64(0xba59e)+uint64(idle)+uint64(workers*100+calls), func() any { return c }, "barge_squeeze")
+	}
 	shard, _ := vstat.Shard()
 	for _, idleUs := range vstat.Pick([]int{300}, []int{200, 300, 1000}) {
 		c := ExitRaceCase{IdleUs: idleUs + 13*shard, Attempts: vstat.Pick(4000, 8000), SpanUs: 150}
